@@ -1,6 +1,8 @@
 package main
 
 import (
+	"go/constant"
+	"go/token"
 	"regexp"
 	"sort"
 	"strings"
@@ -31,20 +33,24 @@ type Reached struct {
 func (w *Walk) run(startBlocks []*ssa.BasicBlock, startIdx []int) *Reached {
 	r := &Reached{Instr: map[ssa.Instruction]bool{}, Edge: map[[2]int]bool{}, Block: map[int]bool{}}
 	type pt struct {
-		b *ssa.BasicBlock
-		i int
+		b    *ssa.BasicBlock
+		i    int
+		only int // -1: all successors; 0/1: only that successor (condition is a phi constant for the edge taken)
 	}
 	var work []pt
 	for k, b := range startBlocks {
-		work = append(work, pt{b, startIdx[k]})
+		work = append(work, pt{b, startIdx[k], -1})
 	}
+	seenChoice := map[[2]int]bool{}
 	for len(work) > 0 {
 		p := work[len(work)-1]
 		work = work[:len(work)-1]
 		if p.i == 0 {
-			if r.Block[p.b.Index] {
+			ck := [2]int{p.b.Index, p.only}
+			if seenChoice[ck] || seenChoice[[2]int{p.b.Index, -1}] {
 				continue
 			}
+			seenChoice[ck] = true
 			r.Block[p.b.Index] = true
 		}
 		stopped := false
@@ -65,16 +71,60 @@ func (w *Walk) run(startBlocks []*ssa.BasicBlock, startIdx []int) *Reached {
 			continue
 		}
 		for si, s := range p.b.Succs {
+			if p.only >= 0 && si != p.only {
+				continue
+			}
 			if w.Cut != nil && w.Cut(p.b, si) {
 				continue
 			}
 			r.Edge[[2]int{p.b.Index, s.Index}] = true
-			if !r.Block[s.Index] {
-				work = append(work, pt{s, 0})
-			}
+			work = append(work, pt{s, 0, phiConstChoice(p.b, s)})
 		}
 	}
 	return r
+}
+
+// phiConstChoice: if block s ends in an If whose condition is a phi of s that
+// has a constant boolean for the edge from p, the successor index that will be
+// taken (0 for true, 1 for false); otherwise -1.
+func phiConstChoice(p, s *ssa.BasicBlock) int {
+	if len(s.Instrs) == 0 {
+		return -1
+	}
+	iff, ok := s.Instrs[len(s.Instrs)-1].(*ssa.If)
+	if !ok {
+		return -1
+	}
+	neg := false
+	c := iff.Cond
+	for {
+		if u, ok := c.(*ssa.UnOp); ok && u.Op == token.NOT {
+			neg = !neg
+			c = u.X
+			continue
+		}
+		break
+	}
+	phi, ok := c.(*ssa.Phi)
+	if !ok || phi.Block() != s {
+		return -1
+	}
+	for i, pred := range s.Preds {
+		if pred == p {
+			if k, ok := phi.Edges[i].(*ssa.Const); ok && k.Value != nil && k.Value.Kind() == constant.Bool {
+				v := constant.BoolVal(k.Value)
+				if neg {
+					v = !v
+				}
+				if v {
+					return 0
+				}
+				return 1
+			}
+			return -1
+		}
+	}
+	return -1
 }
 
 // FromEntry walks from the function entry.
